@@ -996,10 +996,11 @@ fn step_op(w: &mut World, op: &str, fs: &Fields, t: &str, line: &str) -> (String
             }
             (
                 format!(
-                    "sweep level={} seed={} base={} faults={}",
+                    "sweep level={} seed={} base={} man={} faults={}",
                     if full { "full" } else { "quick" },
                     seed,
                     pre,
+                    base.get("MANIFEST").map(|d| w.show_manifest_bytes(d)).unwrap_or_else(|| "none".into()),
                     if anns.is_empty() { "-".to_string() } else { anns.join("#") }
                 ),
                 outs.join("#"),
